@@ -51,3 +51,60 @@ Print Assumptions C11_no_run_without_space.
 Print Assumptions C11_rewind_restores.
 Print Assumptions C11_rewind_keeps_everything_valid.
 Print Assumptions C11_ok_keeps_slot.
+
+(* ---------- the source tie (LeafActual.v, regenerated from /repo on every run) ---------- *)
+From BV Require Import RustSem ConstsActual LeafActual LeafActualOk ArenaSource.
+From Coq Require Import String.
+Close Scope string_scope.
+
+(* what both methods save before reserving the slot: the current footer (by address) and its finger *)
+Theorem C11_source_entry : forall m foot start ptr f,
+  let en := List.app (self_ptr foot start ptr) (cenv m) in
+  let saved := VPtr foot (VRec [("ptr"%string, VN ptr); ("data"%string, VN start)]) in
+  call_fn src_fns en "atw_saved_footer" [f] = RustSem.Ret saved /\
+  call_fn src_fns en "atw_saved_ptr" [f] = RustSem.Ret (VN ptr) /\
+  call_fn src_fns en "tatw_saved_footer" [f] = RustSem.Ret saved /\
+  call_fn src_fns en "tatw_saved_ptr" [f] = RustSem.Ret (VN ptr).
+Proof. exact src_try_with_entry_ok. Qed.
+
+(* on an Err from the initialiser: "is the slot still the last allocation", "is it still the same
+   chunk" (footers compared by address), and the finger stored in either case — for every MIN_ALIGN *)
+Theorem C11_source_exit : forall m foot start ptr res rfoot rstart rptr0 rptr f, pow2 m -> m < W -> foot < W ->
+  let en := List.app (saved_env res rfoot rstart rptr0 rptr) (List.app (self_ptr foot start ptr) (cenv m)) in
+  call_fn src_fns en "atw_is_last" [f] = RustSem.Ret (VB (ptr =? res)) /\
+  call_fn src_fns en "atw_same_chunk" [f] = RustSem.Ret (VB (foot =? rfoot)) /\
+  call_fn src_fns en "atw_rewind_same_chunk" [f] = RustSem.Ret (VN rptr) /\
+  call_fn src_fns en "atw_rewind_new_chunk" [f] = RustSem.Ret (VN (rdown foot m)) /\
+  call_fn src_fns en "tatw_is_last" [f] = RustSem.Ret (VB (ptr =? res)) /\
+  call_fn src_fns en "tatw_same_chunk" [f] = RustSem.Ret (VB (foot =? rfoot)) /\
+  call_fn src_fns en "tatw_rewind_same_chunk" [f] = RustSem.Ret (VN rptr) /\
+  call_fn src_fns en "tatw_rewind_new_chunk" [f] = RustSem.Ret (VN (rdown foot m)).
+Proof. exact src_try_with_exit_ok. Qed.
+
+(* the model's two events are assembled from exactly those values: the pending record keeps
+   (footer, finger, slot) as saved; the exit tests and stores are the source's *)
+Theorem C11_model_assembled_from_source_parts : forall k A b l p,
+  (o_res (snd (tw_begin k A b l)) = ROk p ->
+   exists t, tws (fst (tw_begin k A b l)) = t :: tws (fst (try_alloc k A b l)) /\
+             tw_foot t = cur_foot k b /\ tw_ptr t = cur_ptr k b /\ tw_res t = p) /\
+  (forall t rest, tws b = t :: rest ->
+   let b0 := set_tws b rest in
+   tw_end k b false =
+   tw_end_err_assembled k b0 (cur_ptr k b0 =? tw_res t) (cur_foot k b0 =? tw_foot t)
+                        (tw_ptr t) (rdown (cur_foot k b0) (k_malign k)) /\
+   tw_end k b true = (b0, out_of (ROk (tw_res t)))).
+Proof. intros. split; [apply tw_begin_saves | intros t rest; apply tw_end_is_assembled]. Qed.
+
+(* the statements with no value: the slot is reserved through alloc_with / try_alloc_with(..)?
+   before the initialiser's result is matched, the error value is read out of the slot exactly once
+   on the way out, and the try_fill methods release the slice with dealloc on an error *)
+Theorem C11_source_frames :
+  Forall (fun n => lookup n src_frames = Some true)
+    ["atw_reserves_then_matches"; "atw_error_read_once"; "tatw_reserves_then_matches";
+     "tatw_error_read_once"; "try_fill_releases_on_error"]%string.
+Proof. repeat constructor. Qed.
+
+Print Assumptions C11_source_entry.
+Print Assumptions C11_source_exit.
+Print Assumptions C11_model_assembled_from_source_parts.
+Print Assumptions C11_source_frames.
